@@ -1124,6 +1124,236 @@ def check_compress(inp):
         fails.append('boundary quantum numbers changed')
     return fails
 
+
+# ------------------------------------------------------------------------------------------- C02 / C19 operation steps
+
+def _charges(name, n, given, rng):
+    out = []
+    for i in range(n):
+        key = f'{name}_{i}'
+        out.append(int(given[key]) if key in given else int(rng.integers(-1, 2)))
+    return np.array(out, dtype=int)
+
+
+def _mk_charges(task, d, profiles, given, rng, share_boundary=True):
+    qm = task.get('qmode', 'sym')
+    if qm == 'zero':
+        return np.zeros(d, dtype=int), [[np.zeros(n, dtype=int) for n in P] for P in profiles]
+    if qm == 'pair':
+        qd = np.array([(0 << 16) + 0, (1 << 16) - 1, (1 << 16) + 1, (2 << 16) + 0][:d], dtype=int)
+        # bond charges that make some entries survive: differences of physical charges
+        given = dict(given)
+    else:
+        qd = _charges('qd', d, given, rng)
+    ql = _charges('ql', 1, given, rng); qr = _charges('qr', 1, given, rng)
+    if qm == 'pair' and 'ql_0' not in given:
+        ql = np.array([0]); qr = np.array([int(rng.choice(qd))])
+    out = []
+    for k, P in enumerate(profiles):
+        L = len(P) - 1
+        a, b = (ql, qr) if share_boundary else (_charges(f'ql{k}', 1, given, rng), _charges(f'qr{k}', 1, given, rng))
+        qD = [a.copy()]
+        for i in range(1, L):
+            q = _charges(f'q{k}_{i}', P[i], given, rng)
+            if qm == 'pair' and f'q{k}_{i}_0' not in given:
+                q = np.array([int(rng.choice(qd)) for _ in range(P[i])])
+            qD.append(q)
+        qD.append(b.copy())
+        out.append(qD)
+    return qd, out
+
+
+def _rand_obj(rng, kind, qd, qD, real=False):
+    import pytenet as ptn
+    x = (ptn.MPS if kind == 'mps' else ptn.MPO)(qd, qD, fill='random', rng=rng)
+    if real:
+        x.A = [a.real.copy() for a in x.A]
+    return x
+
+
+def _shares(res, operands):
+    for o in operands:
+        for a in res.A:
+            for b in o.A:
+                if np.shares_memory(a, b):
+                    return 'result tensor shares memory with an operand tensor'
+        if np.shares_memory(res.qd, o.qd):
+            return 'result.qd shares memory with an operand'
+        for qa in res.qD:
+            for qb in o.qD:
+                if qa.size and qb.size and np.shares_memory(qa, qb):
+                    return 'result.qD shares memory with an operand bond quantum number array'
+    return None
+
+
+def _op_once(task, given, rng, focus):
+    """run one concrete operation step; returns list of failures for the given focus ('C02' invariant / 'C19' aliasing)"""
+    import pytenet as ptn
+    from pytenet.mps import split_mps_tensor
+    from pytenet.operation import apply_operator
+    import pytenet.evolution as EV, pytenet.minimization as MI
+    op = task['op']
+    fails = []
+    results = []; untouched = []; operands = []; boundary = None; pure = True
+
+    if op == 'constructor':
+        d, P, cls = task['d'], task['D'], task['cls']
+        qd, (qD,) = _mk_charges(task, d, [P], given, rng)
+        qd0 = qd.copy(); qD0 = [q.copy() for q in qD]
+        x = (ptn.MPS if cls == 'mps' else ptn.MPO)(qd, qD, fill=(0.7 if task['fill'] == 'number' else 'random'), rng=rng)
+        results = [(x, cls, 'constructed')]
+        if focus == 'C19':
+            x.zero_qnumbers()
+            if not np.array_equal(qd, qd0) or any(not np.array_equal(a, b) for a, b in zip(qD, qD0)):
+                fails.append('constructor result shares its quantum-number arrays with the arguments')
+    elif op in ('orthonormalize', 'compress'):
+        d, P = task['d'], task['D']
+        cls = task.get('cls', 'mps')
+        qd, (qD,) = _mk_charges(task, d, [P], given, rng)
+        x = _rand_obj(rng, cls, qd, qD)
+        old = (x.qD[0].copy(), x.qD[-1].copy()); n0 = float(np.linalg.norm(_dense(x, cls)))
+        if op == 'orthonormalize':
+            x.orthonormalize(mode=task['mode'])
+        else:
+            if n0 == 0:
+                return []
+            x.compress(float(given.get('tol', rng.choice([0.0, 0.05, 0.3]))) / max(1, len(P) - 1), mode=task['mode'])
+        results = [(x, cls, op)]; boundary = (x, old, n0); pure = False
+    elif op == 'binary':
+        d, P0, P1, which = task['d'], task['D'], task['D1'], task['which']
+        kinds = dict(add_mps=('mps', 'mps'), sub_mps=('mps', 'mps'), add_mpo=('mpo', 'mpo'), sub_mpo=('mpo', 'mpo'), matmul=('mpo', 'mpo'), apply=('mpo', 'mps'))[which]
+        qd, qDs = _mk_charges(task, d, [P0, P1], given, rng, share_boundary=which not in ('matmul', 'apply'))
+        xs = [_rand_obj(rng, k, qd.copy(), qD) for k, qD in zip(kinds, qDs)]
+        snap = _snapshot(xs)
+        res = {'add_mps': lambda: xs[0] + xs[1], 'sub_mps': lambda: xs[0] - xs[1], 'add_mpo': lambda: xs[0] + xs[1], 'sub_mpo': lambda: xs[0] - xs[1],
+               'matmul': lambda: xs[0] @ xs[1], 'apply': lambda: apply_operator(xs[0], xs[1])}[which]()
+        rk = 'mps' if which in ('add_mps', 'sub_mps', 'apply') else 'mpo'
+        results = [(res, rk, which)]; operands = xs; untouched = (xs, snap)
+    elif op == 'split':
+        d0, d1, D0, D2 = task['d0'], task['d1'], task['D0'], task['D2']
+        qd0 = _charges('qa', d0, given, rng); qd1 = _charges('qb', d1, given, rng)
+        qD = [_charges('ql', D0, given, rng), _charges('qr', D2, given, rng)]
+        mask = np.add.outer(np.add.outer(np.add.outer(qd0, qd1).reshape(-1), qD[0]), -qD[1])
+        A = np.where(mask == 0, rng.standard_normal(mask.shape), 0.0)
+        A_ = A.copy()
+        tol = float(given.get('tol', rng.choice([0.0, 0.1, 0.5])))
+        B0, B1, qb = split_mps_tensor(A, qd0, qd1, qD, task['distr'], tol=tol)
+        if focus == 'C02':
+            if not isinstance(qb, np.ndarray) or len(qb) != B0.shape[2] or len(qb) != B1.shape[1]:
+                fails.append('split: len(qbond) does not match the new bond dimension')
+            else:
+                fails += qsparse_fail(B0, [qd0, qD[0], -qb], 'split.A0') + qsparse_fail(B1, [qd1, qb, -qD[1]], 'split.A1')
+        elif not np.array_equal(A, A_):
+            fails.append('split_mps_tensor modified its argument')
+        return fails
+    elif op == 'from_vector':
+        d, n = task['d'], task['L']
+        v = rng.standard_normal(d ** n); v_ = v.copy()
+        tol = float(given.get('tol', rng.choice([0.0, 0.1])))
+        psi = ptn.MPS.from_vector(d, n, v, tol=tol)
+        results = [(psi, 'mps', 'from_vector')]
+        if focus == 'C19' and not np.array_equal(v, v_):
+            fails.append('from_vector modified its argument')
+        if task.get('followup') == 'orthonormalize':
+            psi.orthonormalize(mode='left')
+        elif task.get('followup') == 'add':
+            results.append((psi + psi, 'mps', 'from_vector + from_vector'))
+    elif op in ('tdvp', 'dmrg'):
+        d, P, PW = task['d'], task['D'], task['DW']
+        qd, (qD,) = _mk_charges(task, d, [P], given, rng)
+        psi = _rand_obj(rng, 'mps', qd, qD)
+        qDW = [np.array([0])] + [_charges(f'qW{i}', PW[i], given, rng) for i in range(1, len(PW) - 1)] + [np.array([0])]
+        H = _rand_obj(rng, 'mpo', qd.copy(), qDW)
+        snap = _snapshot([H])
+        old = (psi.qD[0].copy(), psi.qD[-1].copy()); n0 = float(np.linalg.norm(_dense(psi, 'mps')))
+        if n0 == 0:
+            return []
+        with warnings.catch_warnings():
+            warnings.simplefilter('ignore')
+            if op == 'tdvp':
+                if task['variant'] == 'single':
+                    EV.integrate_local_singlesite(H, psi, 0.1j, 1, numiter_lanczos=4)
+                else:
+                    EV.integrate_local_twosite(H, psi, 0.1j, 1, numiter_lanczos=4, tol_split=float(given.get('tolsplit', 0.0)))
+            else:
+                # DMRG needs a Hermitian operator for a meaningful Lanczos run; structural properties do not depend on it
+                if task['variant'] == 'single':
+                    MI.calculate_ground_state_local_singlesite(H, psi, 1, numiter_lanczos=4)
+                else:
+                    MI.calculate_ground_state_local_twosite(H, psi, 1, numiter_lanczos=4, tol_split=float(given.get('tolsplit', 0.0)))
+        results = [(psi, 'mps', op)]; untouched = ([H], snap); boundary = (psi, old, n0); pure = False
+    elif op == 'hamiltonian':
+        model, L = task['model'], task['L']
+        if model in ('molecular', 'spin_molecular'):
+            tk = rng.standard_normal((L, L)); vi = rng.standard_normal((L, L, L, L)); t_, v_ = tk.copy(), vi.copy()
+            f = ptn.molecular_hamiltonian_mpo if model == 'molecular' else ptn.spin_molecular_hamiltonian_mpo
+            x = f(tk, vi, optimize=task['optimize'])
+            if focus == 'C19' and (not np.array_equal(tk, t_) or not np.array_equal(vi, v_)):
+                fails.append('coefficient tensors were modified')
+        elif model == 'linear_fermionic':
+            c = rng.standard_normal(L) + 1j * rng.standard_normal(L); c_ = c.copy()
+            x = ptn.linear_fermionic_mpo(c, task.get('ftype', 'c'))
+            if focus == 'C19' and not np.array_equal(c, c_):
+                fails.append('coefficient vector was modified')
+        else:
+            p = [float(v) for v in rng.standard_normal(3)]
+            x = {'ising': lambda: ptn.ising_mpo(L, *p), 'heisenberg_xxz': lambda: ptn.heisenberg_xxz_mpo(L, *p),
+                 'heisenberg_xxz_spin1': lambda: ptn.heisenberg_xxz_spin1_mpo(L, *p), 'bose_hubbard': lambda: ptn.bose_hubbard_mpo(task.get('d') or 3, L, *p),
+                 'fermi_hubbard': lambda: ptn.fermi_hubbard_mpo(L, *p)}[model]()
+        results = [(x, 'mpo', model)]
+    elif op == 'identity':
+        qd = _charges('qd', task['d'], given, rng); qd_ = qd.copy()
+        x = ptn.MPO.identity(qd, task['L'], scale=2.0)
+        results = [(x, 'mpo', 'identity')]
+        if focus == 'C19':
+            x.zero_qnumbers()
+            if not np.array_equal(qd, qd_):
+                fails.append('identity MPO shares qd with its argument')
+    else:
+        return [f'unknown op {op}']
+
+    if focus == 'C02':
+        for (x, kind, name) in results:
+            fails += _invariant(x, kind, name)
+        if boundary is not None and not fails:
+            x, old, n0 = boundary
+            if n0 > 1e-12 and (not np.array_equal(x.qD[0], old[0]) or not np.array_equal(x.qD[-1], old[1])):
+                fails.append('leading/trailing bond quantum number of a non-zero state changed')
+    else:
+        if untouched:
+            objs, snap = untouched
+            if not _same(objs, snap):
+                fails.append(f'{op} modified an object it must not touch')
+        if pure and operands:
+            for (res, kind, name) in results:
+                sh = _shares(res, operands)
+                if sh:
+                    fails.append(sh)
+                _mutate_result(res)
+            objs, snap = untouched
+            if not _same(objs, snap):
+                fails.append(f'mutating the result of {op} changed an operand (shared state)')
+    return fails
+
+
+@check('op_step')
+def check_op_step(inp):
+    task = inp['task']; focus = inp.get('focus', 'C02')
+    given = inp.get('charges') or {}
+    fails = []
+    for rep in range(8 if not given else 3):
+        rng = np.random.default_rng(1000 * int(inp.get('seed', 0)) + rep)
+        try:
+            f = _op_once(task, given, rng, focus)
+        except Exception as e:
+            import traceback
+            tb = traceback.extract_tb(e.__traceback__)[-1]
+            f = [f'{task["op"]} raised {type(e).__name__}: {e} (at {tb.name}:{tb.lineno})']
+        if f:
+            fails += f
+            break
+    return fails
+
 # -------------------------------------------------------------------------------------------
 
 def main():
